@@ -23,6 +23,7 @@
 #endif
 
 #include <limits.h>
+#include <float.h>
 #include <stdlib.h>
 #include <string.h>
 #include <math.h>
@@ -517,6 +518,13 @@ void mpq_EGlpNumSet (mpq_t var,
 	unsigned long __utmp = 0;
 	int __lexp = 0;
 	double __cvl = __dbl = fabs (__dbl);
+	/* GMP raises SIGFPE for a non-finite double: an infinity (the double solve
+	 * of a problem with a number beyond the double range returns them) becomes
+	 * the largest double, a NaN zero */
+	if (__dbl != __dbl)
+		__cvl = __dbl = 0.0;
+	if (__dbl > DBL_MAX)
+		__cvl = __dbl = DBL_MAX;
 	/* we use the first three numbers for p, and the last three numbers for q */
 	/* first check that the dbl is not zero */
 	if (__dbl < 1e-151)
